@@ -479,6 +479,9 @@ class Printer:
         for name, ty, isarr in p['params']:
             if ty.startswith('T:'):
                 ps.append(name + ('()' if isarr else '') + ' as ' + ty[2:])
+            elif name_type(name) is None:
+                # an unsuffixed parameter (one that shadows a SHARED variable)
+                ps.append(name + ('()' if isarr else '') + ' as ' + TYNAME[ty])
             else:
                 ps.append(name + ('()' if isarr else ''))
         if not ps:
